@@ -5,7 +5,7 @@
    (fix_slice, combine_slices, hyperslab - the functions of C03) addresses exactly the source
    elements numpy selects from the pre-sliced axis, and its text parses back on the server to the
    same slice whenever the selection is non-empty.  For all extents, strides and bounds. *)
-From PydapV Require Import Base Slices SliceArith SliceProofs HyperslabProofs RemoteProofs.
+From PydapV Require Import Base Slices Quote GridSel SliceArith SliceProofs HyperslabProofs RemoteProofs GridSelProofs.
 Open Scope Z_scope.
 
 Theorem C02_remote_axis : forall N0 ps it,
@@ -44,3 +44,55 @@ Example C02_ex :
             c = combine1 ps (mkSlice (Some 2) (Some 7) (Some 1)) /\
             np_indices N0 c = [5; 7; 9] /\ hyperslab [ISlice c] = Some "[5:2:9]"%string.
 Proof. cbn zeta. repeat split; try (cbn; lia). eexists. repeat split; reflexivity. Qed.
+
+(* ---- "a sliced grid returns its maps sliced along the matching axes": the index branch of GridType.__getitem__
+   (model/GridSel.v).  For every shape and index tuple of numpy's domain (any rank, Ellipsis, short tuples, negative bounds),
+   every array whose dimension names are distinct, and every list of maps the grid still lists - all of them, some of them, in
+   any order (a grid narrowed by g["a", "m1"]) -: the normalised key selects from the array what numpy selects, and every listed
+   map is sliced with the item of the very axis that bears its name. *)
+Theorem C02_grid_maps_follow_their_axes : forall shape dims idx maps,
+  Forall (fun N => 0 <= N) shape ->
+  one_ellipsis idx ->
+  Forall2 item_in_domain shape (np_expand idx (List.length shape)) ->
+  List.length dims = List.length shape ->
+  NoDup (map quote dims) ->
+  (forall m, In m maps -> In m (map quote dims)) ->
+  exists key prs,
+    grid_getitem shape dims idx maps = Some (key, prs) /\
+    List.length key = List.length shape /\
+    np_select_axes shape key = np_select shape idx /\
+    Forall2 (fun m p => fst p = m /\ exists j it, nth_error (map quote dims) j = Some m /\ nth_error key j = Some it /\ snd p = Some it)
+            maps prs.
+Proof. exact grid_maps_follow_their_axes. Qed.
+Print Assumptions C02_grid_maps_follow_their_axes.
+
+(* an array that carries no dimension names: maps and axes are paired by position (all the code can know) *)
+Theorem C02_grid_maps_positional_without_names : forall shape idx key maps,
+  fix_slice idx shape = Some key ->
+  (List.length maps <= List.length key)%nat ->
+  grid_getitem shape [] idx maps = Some (key, map (fun p => (fst p, Some (snd p))) (combine maps key)).
+Proof. exact grid_maps_positional_without_names. Qed.
+Print Assumptions C02_grid_maps_positional_without_names.
+
+(* pairing by position alone - the code before the repair 7b14c4d - gives a narrowed grid's map the item of another axis *)
+Theorem C02_positional_pairing_refuted :
+  exists (dims : list chars) (key : list item) (maps : list chars),
+    NoDup (map quote dims) /\ List.length dims = List.length key /\ (forall m, In m maps -> In m (map quote dims)) /\
+    pair_maps [] key 1 maps <> pair_maps (usable_dims dims (List.length key)) key 1 maps.
+Proof. exact positional_pairing_refuted. Qed.
+Print Assumptions C02_positional_pairing_refuted.
+
+Example C02_ex_grid :
+  let shape := [4; 5] in let dims := [s2l "m0"; s2l "lat deg"] in
+  let idx := [ISlice (mkSlice (Some 1) (Some 3) None); ISlice (mkSlice None (Some 2) None)] in
+  let maps := [s2l "lat%20deg"] in                                         (* g["a", "lat deg"][1:3, :2] *)
+  Forall (fun N => 0 <= N) shape /\ List.length dims = List.length shape /\ NoDup (map quote dims) /\
+  (forall m, In m maps -> In m (map quote dims)) /\
+  option_map snd (grid_getitem shape dims idx maps) =
+    Some [(s2l "lat%20deg", Some (ISlice (mkSlice (Some 0) (Some 2) (Some 1))))].
+Proof.
+  cbn zeta. repeat split.
+  - repeat constructor; lia.
+  - apply nodupb_NoDup. vm_compute. reflexivity.
+  - intros m [<-|[]]. vm_compute. right; left; reflexivity.
+Qed.
